@@ -30,8 +30,8 @@ PROPS["C14"] = dict(
 HL = {"refcbor": 70, "common": 70, "c11::": 70, "memcmp": 70}  # harness-side byte loops (reference encoder, compare)
 PROPS["C11"] = dict(
     bounds="Shelley kinds: network 0..15, both credential kinds, all hash bytes, pointer triples over all u64; "
-           "strict parser: every non-Byron byte string of <= 34 bytes and base-address candidates of 55..60 bytes; "
-           "embedded parser: every carried byte string of <= 34 bytes",
+           "strict parser: every non-Byron byte string of <= 34 bytes and base-address candidates of 55..60 bytes "
+           "(the embedded-parser harness does not finish within 30 min even for 6 carried bytes and is not part of the claim)",
     assumptions=["Byron headers (0b1000) are excluded from the Shelley harnesses; Bech32/Base58 text forms are outside the bound"],
     e1=[
         J("c11_enc_base", bound="kind base; net<16; both credential kinds; all hash bytes", encodes=["Address::to_bytes", "kind", "network_id", "payment_cred"], unwind_fn=HL, mem_gb=10),
@@ -47,7 +47,6 @@ PROPS["C11"] = dict(
         J("c11_strict_parse_ptr_long", tier="thorough", bound="pointer header + 28-byte hash + every 12-byte tail", encodes=["variable_nat_decode", "Address::decode_pointer", "Address::from_bytes_internal_impl(strict)"], unwind_fn=HL, mem_gb=14, timeout_s=1500),
         J("c11_strict_parse_short", tier="thorough", bound="every byte string of length 0..34, header != Byron", encodes=["Address::from_bytes_internal_impl(strict)"], unwind_fn=HL, timeout_s=1800, mem_gb=16),
         J("c11_strict_parse_base", bound="length 55..60, header nibble 0..3", encodes=["Address::from_bytes_internal_impl(strict)"], unwind_fn=HL, timeout_s=1800, mem_gb=16),
-        J("c11_embedded_verbatim_short", tier="thorough", bound="carried byte string of length 0..34", encodes=["Address::deserialize", "from_bytes_impl_unsafe"], unwind_fn=HL, timeout_s=1800, mem_gb=16),
     ],
 )
 
